@@ -24,7 +24,7 @@ from harness import fparse, syntax as S, workbook as W, xl
 SHEET_SETS = [['S1', 'S1b', "O'x"], ['Data', 'Data 2'], ['S 2', 'S 2b', 'S1'], ['Jan', 'Feb', 'Sum'], ['S1', 'S 2']]
 NUMS = [-2, -1, 0, 1, 2, 3, 7, 10, 100]
 FRACS = [(1, 2), (5, 2), (-1, 4), (3, 10)]
-TEXTS = ['ab', 'AB', 'x', '7', 'total', 'a b', "it's", 'é']
+TEXTS = ['ab', 'AB', 'x', '7', 'total', 'a b', "it's", 'é', '#N/A', 'TRUE']      # (a text that merely spells an error code / a logical value is a text)
 ROWS, COLS = 6, 4
 
 
@@ -413,6 +413,9 @@ def drive(seed, work, mix='c04'):
                 if nm and rng.random() < 0.5:
                     evs[0].set_cell_value(nm[0], xl.from_abs(v, 'native'))
                     hist.append(['set-by-name', nm[0], v])
+                elif rng.random() < 0.3:      # the model's own setter (the evaluators are not told)
+                    model.set_cell_value(W.addr(key), xl.from_abs(v, 'native'))
+                    hist.append(['set', W.addr(key), v])
                 else:
                     evs[rng.randrange(2)].set_cell_value(W.addr(key), xl.from_abs(v, 'native'))
                     hist.append(['set', W.addr(key), v])
